@@ -48,6 +48,10 @@ type Options struct {
 	// when a check races against it by busy-waiting: a spinning goroutine keeps the
 	// virtual clock from advancing, so the raced operation must not sleep).
 	CalmConn0 bool
+	// BoundaryRace, when set, races an operation of connection 0 against a call the
+	// library makes to its broker / presence manager (see boundary.go). Position
+	// checks are made frequent so that their history reads are among those calls.
+	BoundaryRace *BoundaryRace
 	// Inject, when set, closes connection Inject.Conn by Inject.Cause the first time
 	// that connection reaches yield point Inject.Point.
 	Inject *Injection
@@ -215,6 +219,10 @@ func New(c *kit.Case, opt Options) *Env {
 	if opt.TickConcurrency > 0 {
 		centrifuge.VerifSetTickConcurrency(&cfg, opt.TickConcurrency, opt.TickConcurrency)
 	}
+	if opt.BoundaryRace != nil {
+		cfg.ClientPresenceUpdateInterval = time.Second
+		cfg.ClientChannelPositionCheckDelay = time.Second
+	}
 	if opt.ExtraConfig != nil {
 		opt.ExtraConfig(&cfg)
 	}
@@ -275,6 +283,9 @@ func New(c *kit.Case, opt Options) *Env {
 				e.record(CB{Conn: idx, Kind: "alive"})
 			})
 		})
+		if opt.BoundaryRace != nil {
+			e.installBoundary(n)
+		}
 		if opt.ExtraSetup != nil {
 			opt.ExtraSetup(e, n)
 		}
@@ -311,7 +322,7 @@ func New(c *kit.Case, opt Options) *Env {
 				cc.Plan[i].Async = 0
 			}
 		}
-		if (opt.Inject != nil && opt.Inject.Conn == i) || (opt.CalmConn0 && i == 0) {
+		if (opt.Inject != nil && opt.Inject.Conn == i) || ((opt.CalmConn0 || opt.BoundaryRace != nil) && i == 0) {
 			cc.calm = true
 			for k := range cc.Plan {
 				cc.Plan[k].Async = 0
